@@ -91,6 +91,7 @@ def make_summary(nn, agg, name, post_listening=True):
                 h = st.heap[fb.ident].fields.get("header")
                 if isinstance(h, Ref):
                     snap["header"] = dict(st.heap[h.ident].fields)
+                    snap["header_ref"] = h
         it.event(st, fr, "summary", node, (name, ok, det, snap))
         if isinstance(selfv, Ref):
             havoc_node(it, st, selfv)
@@ -319,7 +320,7 @@ def run(ck):
                 agg.add("R07.2", f_begin, "_begin() leaves RX mode, EN_AA=0x3E, six pipes open on the node's addresses, pipe 0 remembered", not prob,
                         "_begin(0o%o) from %s state: %s" % (addr, pre, "; ".join(prob)))
                 cell = out.state.heap[node.ident]
-                agg.add("R07.2", f_begin, "_begin() records the new address", const_of(norm(cell.fields.get("_addr"))) == addr, "_addr=%r" % (cell.fields.get("_addr"),))
+                agg.add("R07.2", f_begin, "_begin() records the new address", const_of(norm(cell.fields.get(net.FN("_addr")))) == addr, "_addr=%r" % (cell.fields.get(net.FN("_addr")),))
     # ---- every public entry point, with the verified callees as summaries ----------------------------
     nn.model.opaque[f_upd.qualname] = sum_upd
     nn.model.opaque[f_begin.qualname] = sum_begin
@@ -411,6 +412,9 @@ def run(ck):
     # also the current one (after power-down, inside a fresh `with`, or after new prefix/suffix bytes) - R04.8
     from . import c04
     c04.reconfigure(ck, agg)
+    # "pipe 0 on its level's shared address": the multicast_level setter re-opens pipe 0 on the address of the level it stores (R14.1)
+    from . import c14
+    c14.level_domain(ck, agg, net.NetNode(ck, "rf24_network", "RF24Network"))
     agg.flush()
     ck.floor("R07", "_write/_net_update/_begin scenarios", nscen, 40)
     ck.floor("R07.1", "public entry points reaching the radio", nentry, 20)
